@@ -400,11 +400,15 @@ func c09CheckCache(c c09CacheCase) h.Result {
 func c09GenCache(t *rapid.T) c09CacheCase {
 	kinds := []string{"honest", "honest", "honest", "mixed", "small", "small-nc", "undecodable", "wronglen", "ncbig"}
 	var pre []string
+	neg := rapid.IntRange(0, 2).Draw(t, "negkey") == 0 // universe contains A and -A (same y, other sign bit)
 	for i := 0; i < 4; i++ {
+		if neg && i == 3 {
+			break
+		}
 		pre = append(pre, rapid.SampledFrom(kinds).Draw(t, "kind"))
 	}
 	pool, _ := h.C09GenPool(t, h.C09PoolCfg{ND: rapid.IntRange(3, 6).Draw(t, "nd"), NO: rapid.IntRange(0, 3).Draw(t, "no"),
-		NSpec: rapid.IntRange(2, 6).Draw(t, "nspec"), MaxKeys: 6, Kinds: pre})
+		NSpec: rapid.IntRange(2, 6).Draw(t, "nspec"), MaxKeys: 6, Kinds: pre, NegOf0: neg})
 	c := c09CacheCase{Pool: pool, Capacity: rapid.IntRange(1, 4).Draw(t, "capacity")}
 	n := rapid.IntRange(4, 40).Draw(t, "nops")
 	ops := []string{"verify", "verify", "verify", "verifyopts", "verifyopts", "verifyopts", "verifyopts", "add", "addopts", "addopts",
